@@ -120,6 +120,29 @@ Definition owned (h : heap) (o : nat) : list nat := c_w (obj h o) :: lst h (c_fs
 (* h' extends h: every location of h keeps its content *)
 Definition extends (h h' : heap) : Prop :=
   (exists a, h_arr h' = h_arr h ++ a) /\ (exists l, h_lst h' = h_lst h ++ l) /\ (exists o, h_obj h' = h_obj h ++ o).
+(* the references of an operand point into the heap *)
+Definition wf_ref (h : heap) (r : href) : Prop :=
+  ref_fs h r < length (h_lst h) /\
+  (forall l, In l (lst h (ref_fs h r)) -> l < length (h_arr h)) /\
+  (forall l, ref_w h r = Some l -> l < length (h_arr h)) /\
+  (forall o, r = RObject o -> o < length (h_obj h)).
+
+
+(* a history: every call has copy=True and takes as operand ANY tensor seen so far (the caller's own or an earlier result) *)
+Fixpoint run_ops (h : heap) (refs : list href) (ops : list (nat * operand (F:=F) * nat * bool)) : res (heap * list href) :=
+  match ops with
+  | [] => Ok (h, refs)
+  | (k, x, mode, kd) :: rest =>
+      match nth_error refs k with
+      | None => Err
+      | Some r =>
+          match cp_mode_dot_h h r true x mode kd with
+          | Ok (h', o) => run_ops h' (refs ++ [RObject o]) rest
+          | Err => Err
+          end
+      end
+  end.
+
 (* no caller-held array is clobbered silently: it keeps its value or belongs to the result *)
 Definition no_silent_clobber (h h' : heap) (o : nat) : Prop :=
   forall l, l < length (h_arr h) -> arr h' l = arr h l \/ In l (owned h' o).
